@@ -66,6 +66,18 @@ def check_design(sub, item):
         sub.note_inconclusive(f'{key}: {len(comp.clauses)} clauses, skipped')
         return 'big'
     sem = comp.sem
+    if sem.status != 'ok':
+        # the documented rules leave no valid sequence (e.g. a complete crossing is required but impossible): the trial
+        # count and the variable layout are moot; the formula must have no model, or synthesis must report an error
+        sub.case(key, nontrivial=True)
+        if 'sound' in queries and not comp.errors:
+            from .sat import solve
+            sat, m = solve(comp.clauses)
+            if sat:
+                seq = decode_model(comp, {v: bool(m[v]) for v in range(1, comp.support + 1)})
+                sub.violation(f'sound:{key}', f'{label}: the documented rules leave no valid sequence, but the compiled '
+                              f'formula has a model, decoding to {seq}', {'desc': desc, 'query': 'nonempty'})
+        return 'empty'
     if 'trials' in queries and sem.T != comp.T_lib:
         sub.violation(f'trials:{key}', f'{label}: documented rules give {sem.T} trials, block reports {comp.T_lib}',
                       {'desc': desc, 'query': 'trials', 'expected': sem.T})
@@ -156,6 +168,9 @@ def replay_design(data):
     comp = compile_design(desc)
     if q in ('length', 'trials'):
         return comp.T_lib != data['expected']
+    if q == 'nonempty':
+        from .sat import solve
+        return bool(solve(comp.clauses)[0]) and not comp.errors and analyse(desc).status != 'ok'
     if q == 'layout':
         from .sat import solve
         sat, m = solve(comp.clauses)
@@ -214,8 +229,8 @@ def replay_design(data):
     return False
 
 
-def design_items(ctx, queries, filt=None):
-    ds = corpus.designs(ctx.tier, ctx.seed)
+def design_items(ctx, queries, filt=None, n=None):
+    ds = corpus.designs(ctx.tier, ctx.seed, n)
     if filt:
         ds = [d for d in ds if filt(d)]
     return [(d, queries) for d in ds]
